@@ -165,7 +165,9 @@ class Report:
         self.counters = Counter()
         self.keys = set()
         self.nontrivial_keys = set()
-        self.violations = []  # kept (deduplicated by site+features)
+        self.violations = []  # kept NEW violations (deduplicated by site+features)
+        self.known = {}  # finding id -> first violation covered by that known finding
+        self._findings = load_findings(pid)
         self.violation_sites = Counter()
         self.samples = []
         self.extra = {}
@@ -194,8 +196,13 @@ class Report:
             v = out["violation"]
             sig = v["site"] + "|" + json.dumps(v.get("features", {}), sort_keys=True, default=str)
             self.violation_sites[sig] += 1
-            if self.violation_sites[sig] == 1 and len(self.violations) < self.MAX_KEPT_VIOLATIONS:
-                self.violations.append(v)
+            if self.violation_sites[sig] == 1:
+                # violations covered by a known finding never compete with new ones for the kept slots
+                e = match_finding(self._findings, v)
+                if e is not None:
+                    self.known.setdefault(e["id"], v)
+                elif len(self.violations) < self.MAX_KEPT_VIOLATIONS:
+                    self.violations.append(v)
         if sample is not None and len(self.samples) < self.MAX_SAMPLES:
             self.samples.append(sample)
 
@@ -219,6 +226,8 @@ class Report:
             if sig not in seen and len(self.violations) < self.MAX_KEPT_VIOLATIONS:
                 self.violations.append(v)
                 seen.add(sig)
+        for fid, v in other.known.items():
+            self.known.setdefault(fid, v)
         self.violation_sites.update(other.violation_sites)
         for s in other.samples:
             if len(self.samples) < self.MAX_SAMPLES:
@@ -342,7 +351,11 @@ def write_replay(pid, v, tier, seed):
 def finish(mod, rep, t0, extra_coverage=None):
     pid, tier, seed = rep.pid, rep.tier, rep.seed
     findings = load_findings(pid)
+    by_id = {e["id"]: e for e in findings}
     new, known = [], {}
+    for fid, v in rep.known.items():
+        if fid in by_id:
+            known[fid] = (by_id[fid], v)
     for v in rep.violations:
         e = match_finding(findings, v)
         if e is None:
